@@ -44,15 +44,26 @@ func (c *cconn) SetDeadline(time.Time) error      { return nil }
 func (c *cconn) SetReadDeadline(time.Time) error  { return nil }
 func (c *cconn) SetWriteDeadline(time.Time) error { return nil }
 
-// fakeListener hands out its conns then reports closed.
+// fakeListener hands out its conns then reports closed. Depending on its mode it
+// first fails a few times with an error that is NOT net.ErrClosed (a transient
+// accept failure, or a listener with a closed-error of its own): after its conns
+// (mode 1) or before them (mode 2).
 type fakeListener struct {
-	mu    sync.Mutex
-	conns []*cconn
+	mu       sync.Mutex
+	conns    []*cconn
+	mode     int
+	failures int
 }
+
+var sourceListeners atomic.Int64
 
 func (f *fakeListener) Accept() (net.Conn, error) {
 	f.mu.Lock()
 	defer f.mu.Unlock()
+	if f.failures > 0 && (f.mode == 2 || (f.mode == 1 && len(f.conns) == 0)) {
+		f.failures--
+		return nil, errors.New("accept: too many open files")
+	}
 	if len(f.conns) == 0 {
 		return nil, net.ErrClosed
 	}
@@ -122,7 +133,7 @@ func runImpl(t vkit.TB, order []string, grace time.Duration, conns map[int]*ccon
 				}
 				l.IngressConn(conns[id], ierr)
 			case op == "L":
-				_ = l.IngressListener(&fakeListener{conns: []*cconn{conns[100], conns[101]}})
+				_ = l.IngressListener(&fakeListener{conns: []*cconn{conns[100], conns[101]}, mode: int(sourceListeners.Add(1) % 3), failures: 3})
 			case op == "a":
 				c, err := l.Accept()
 				led.mu.Lock()
